@@ -19,6 +19,64 @@ theorem operator_tables :
       "+", "-", "*", "/", "%", "^", "and", "or"].map (·.toUTF8.toList) ∧
     Gen.unopPats.map (·.2) = ["-", "#", "~", "@", "%", "$", "not"].map (·.toUTF8.toList) := by decide +kernel
 
+/-! ### the grammar transcription against the syntax tree of parser.py
+
+`Gen.parserCensus` / `Gen.parserClassCensus` are regenerated on every run from the *syntax tree* of parser.py: for every parser
+method the token literals (`lexer.TokSymbol(b'+=')`, …) and token classes (`lexer.TokName`, …) it mentions. The grammar data
+`Gram.gram` is a hand transcription; the theorem below pins it to that census: per method (group), the set of literals and the set
+of classes are exactly those of the corresponding nonterminal(s) of the transcription (operators come from the regenerated
+`BINOP_PATS` / `UNOP_PATS` tables and are left out on the grammar side). An alternative added to, removed from or re-spelled in
+a parser method breaks this obligation whether or not any generated program exercises it. -/
+
+def kindName : Kind → String
+  | .keyword => "keyword" | .symbol => "symbol" | .name => "name" | .number => "number" | .string => "string"
+  | .label => "label" | .space => "space" | .newline => "newline" | .comment => "comment"
+
+/-- every pattern a grammar expression mentions, look-behind and look-ahead included -/
+def allPats : G → List Pat
+  | .eps => [] | .tok p => [p]
+  | .seq a b => allPats a ++ allPats b | .alt a b => allPats a ++ allPats b
+  | .star g => allPats g | .nt _ => [] | .hard g => allPats g | .node _ g => allPats g
+  | .chain f s => allPats f ++ allPats s | .fence g => allPats g
+  | .prevTokIs p => [p] | .notAhead g => allPats g | .filterTop _ g => allPats g
+
+def gramLits (ns : List Nat) : List (String × List UInt8) :=
+  (ns.flatMap fun n => allPats (Gram.gram n)).filterMap fun p =>
+    match p with
+    | .exact k d => if (Gen.binopPats ++ Gen.unopPats).contains (kindName k, d) && (ns.contains Gram.nExp || ns.contains Gram.nExpTerm)
+                    then none else some (kindName k, d)
+    | .kind _ => none
+
+def gramKinds (ns : List Nat) : List String :=
+  (ns.flatMap fun n => allPats (Gram.gram n)).filterMap fun p =>
+    match p with
+    | .kind k => some (kindName k)
+    | .exact _ _ => none
+
+def srcLits (ms : List String) : List (String × List UInt8) :=
+  ms.flatMap fun m => (Gen.parserCensus.filter (·.1 == m)).flatMap (·.2)
+
+def srcKinds (ms : List String) : List String :=
+  (ms.flatMap fun m => (Gen.parserClassCensus.filter (·.1 == m)).flatMap (·.2)).filter
+    fun k => !(["space", "newline", "comment"].contains k)
+
+def sameSet {α} [BEq α] (a b : List α) : Bool := a.all b.contains && b.all a.contains
+
+/-- parser methods and the nonterminals of the transcription they correspond to -/
+def methodMap : List (List String × List Nat) := [
+  (["_chunk"], [Gram.nChunk]), (["_stat"], [Gram.nStat]), (["_laststat"], [Gram.nLastStat]), (["_funcname"], [Gram.nFuncName]),
+  (["_varlist"], [Gram.nVarList]), (["_var"], [Gram.nVar]), (["_namelist"], [Gram.nNameList]), (["_explist"], [Gram.nExpList]),
+  (["_exp", "_exp_binop"], [Gram.nExp]), (["_exp_term"], [Gram.nExpTerm]), (["_prefixexp", "_prefixexp_recur"], [Gram.nPrefixExp]),
+  (["_functioncall"], [Gram.nFunctionCall]), (["_args"], [Gram.nArgs]), (["_function"], [Gram.nFunction]),
+  (["_funcbody"], [Gram.nFuncBody]), (["_tableconstructor"], [Gram.nTableCons]), (["_field"], [Gram.nField])]
+
+/-- **C08.census_matches_grammar**: per parser method, the token literals and token classes that parser.py's syntax tree mentions
+are exactly those of the grammar transcription; and no method with token literals is left out of the map. -/
+theorem census_matches_grammar :
+    methodMap.all (fun (ms, ns) => sameSet (srcLits ms) (gramLits ns) && sameSet (srcKinds ms) (gramKinds ns)) = true ∧
+    (Gen.parserCensus.all fun (m, ls) => ls.isEmpty || methodMap.any fun (ms, _) => ms.contains m) = true := by
+  decide +kernel
+
 /-- **C08.cover** (every grammar): a successful run returns trees whose leaves, read in order, are exactly the
 significant tokens of the consumed range — no token skipped, none used twice, operands and operators in source order. -/
 theorem cover (gram : Nat → G) (toks : Array Tok) (fuel : Nat) (g : G) (st st' : PSt) (ts : List Tree)
